@@ -210,12 +210,18 @@ fn pipe_in_items(cfg: &Cfg) {
         // one item arrives and its processing blocks; the last Arc is dropped while the pipe's poll job is running
         ctl.push(1);
         rt::quiesce();
+        // `inpoll`=k: when the poll job then finds the input empty, the input wakes its waker from inside poll_next (the Desync
+        // has no owner left at that moment)
+        ctl.set_wake_in_poll(cfg.opt("inpoll", 0) as usize);
         let opener = spawn(move || hold.open());
         let dropper = {
             let drops = w.payload_drops.clone();
+            let inpoll = cfg.opt("inpoll", 0) > 0;
             spawn(move || {
                 drop(obj);
-                if drops.load(AO::SeqCst) != 1 {
+                // (with a wake-up being processed at the same moment the pipe may hold a momentary upgraded reference, which then
+                // is the last one: the payload is destroyed a little later, which the check at quiescence below covers)
+                if !inpoll && drops.load(AO::SeqCst) != 1 {
                     rt::violation(format!("DROP-COUNT the payload was destroyed {} times when the last owner's drop returned (a pipe_in poll was running)", drops.load(AO::SeqCst)));
                 }
             })
